@@ -14,7 +14,7 @@
 //     (Get…() returning tables/lists: ZipPack.GetRecords, StatGeneralPack.GetDataTable, …), in the
 //     prefix sweep, the hostile sweep and the child's allocation measurement alike.  The complete
 //     encoding must be consumed exactly (Available()==0), else the shorter prefix is reported.
-//  2b. stream sweep (stream.go): the same truncation points through io.NewDataInputNet over an
+//     2b. stream sweep (stream.go): the same truncation points through io.NewDataInputNet over an
 //     in-memory net.Conn with varied fragmentation and the four ways a connection can end.
 //  3. hostile sweep: the offsets of every encoding are overwritten with length/count/tag patterns
 //     (-1, 0x7fffffff, 0x80000000, 65535, 32767, blob markers 254/255 with huge lengths, decimal
@@ -522,7 +522,7 @@ func main() {
 
 	if env.Replay != "" {
 		runReplay(env, rep, self)
-			rep.Write(env.Out)
+		rep.Write(env.Out)
 		return
 	}
 
